@@ -25,6 +25,14 @@ def orbit_size_exact(ops, pos):
     return len(pts)
 
 
+def stabiliser_size(ops, pos):
+    n = 0
+    for R, t in ops:
+        if all((sum(R[i][j] * pos[j] for j in range(3)) + t[i] - pos[i]) % 1 == 0 for i in range(3)):
+            n += 1
+    return n
+
+
 def orbit_size_generic(ops, fam, z):
     """positions a*x + b with generic x (linear forms); fam gives (a, b) per coordinate, z fixed rational"""
     pts = set()
@@ -121,6 +129,8 @@ def search(ctx):
                       sample={'sgno': no, 'cell_choice': ch, 'position': fpos, 'expected': exp} if (no == 194 and k == 0) else None)
             if why is None and got != exp:
                 why = 'multiplicity = %r, orbit has %d points' % (got, exp)
+            if why is None and kind <= 2 and got * stabiliser_size(ops, pos) != len(ops):
+                why = 'multiplicity %r x site-symmetry order %d != nsymop %d' % (got, stabiliser_size(ops, pos), len(ops))
             if why and (no, ch) not in seen:
                 seen.add((no, ch))
                 fails.append({'sgno': no, 'cell_choice': ch, 'name': s.name, 'position': fpos, 'expected': exp, 'got': got, 'what': why,
